@@ -127,6 +127,8 @@ var c12Bases = []string{
 	"file:///root.json", "file:///r/root.json", "file:///r/a/root.json", "file:///r/a/b/root.json",
 	"http://h/root.json", "http://h/r/root.json", "https://h:8443/r/a/root.json", "file://host/r/root.json",
 	"http://h/r/a/b/c/root.json",
+	// containing documents whose name has no extension (RFC 3986 5.2.3 drops the last segment of the base whatever it looks like)
+	"file:///r/doc", "http://h/v2/api-docs", "https://h:8443/a.b/c/spec",
 }
 
 // c12Refs enumerates the in-scope references: up to maxSegs directory segments followed by a file name.
